@@ -119,3 +119,26 @@ pub fn mutate_text(text: &str, t: &mut Tape) -> String {
     }
     join(&gaps, &toks)
 }
+
+const SOUP: &[&str] = &[
+    "module", "endmodule", "begin", "end", "if", "else", "case", "endcase", "for", "always", "initial", "assign", "wire", "logic", "reg", "input", "output", "inout",
+    "function", "endfunction", "task", "endtask", "class", "endclass", "package", "endpackage", "interface", "endinterface", "generate", "endgenerate", "typedef",
+    "enum", "struct", "parameter", "localparam", "int", "bit", "genvar", "fork", "join", "posedge", "negedge", "or", "library", "include", "config", "endconfig",
+    "a", "b", "x1", "m", "\\esc ", "$display", "$x", "0", "1", "8'hFF", "'0", "1.5", "\"s\"", "\"", "(", ")", "[", "]", "{", "}", "'{", ";", ",", ".", ":", "::", "=", "<=", "==",
+    "+", "-", "*", "/", "#", "@", "@*", "?", "&", "|", "^", "~", "!", "<<", ">>", "->", "`define X 1\n", "`X", "`ifdef X", "`else", "`endif", "`include \"f\"", "`resetall",
+    "`timescale 1ns/1ps", "`begin_keywords \"1364-2001\"", "`end_keywords", "`celldefine", "`undef X", "`__LINE__", "`__FILE__", "//c\n", "/* c */", "/*", "*/", "\n", " ", "\t", "\r\n",
+    "\\", "\u{1}", "é", "(*", "*)", "-incdir", "`", "``", "`\"",
+];
+
+/// A token soup over a vocabulary of keywords, directives, delimiters and fragments.
+pub fn soup(t: &mut Tape) -> String {
+    let n = t.below(30);
+    let mut s = String::new();
+    for _ in 0..n {
+        s.push_str(t.pick_str(SOUP));
+        if t.chance(3, 4) {
+            s.push(' ');
+        }
+    }
+    s
+}
